@@ -37,6 +37,9 @@ C07Clauses(e) ==
       <<"copy-shares-no-node", e.copy.shared = 0>>,
       <<"copy-leaves-source-untouched", e.copy.srcsame>>,
       <<"copy-independent", e.copy.indep1 /\ e.copy.indep2>>  >>
+\* Filter with the stock functions follows NodeHeapOps!FilterM: the result, that it is made of fresh nodes, that the input is untouched
+FiltersOK(e) == \A k \in 1..Len(e.filters) :
+  LET o == e.filters[k] IN o.panic = "" /\ PlainSeq(o.res) = FilterM(o.f, e.A) /\ o.shared = 0 /\ o.pure
 C07Model(e) ==
   LET t2 == ApplyOp(e.A, e.op) IN
   e.panic = "" => /\ e.deq12 = DeepEq(AsIs, e.A, t2) /\ e.deq21 = DeepEq(AsIs, t2, e.A)
@@ -97,7 +100,7 @@ C09Model(e) ==
 
 \* ----------------------------------------------------------------
 Clauses(e) == CASE e.mode = "c07" -> C07Clauses(e) [] e.mode = "c08" -> C08Clauses(e) [] OTHER -> C09Clauses(e)
-ModelOK(e) == CASE e.mode = "c07" -> C07Model(e) [] e.mode = "c08" -> C08Model(e) [] OTHER -> C09Model(e)
+ModelOK(e) == CASE e.mode = "c07" -> (C07Model(e) /\ FiltersOK(e)) [] e.mode = "c08" -> C08Model(e) [] OTHER -> C09Model(e)
 \* a lost node is explained by the child-dependent equality of RESI / EVEN when the code follows the
 \* transcription and every clause holds once that equality is shallow
 C09Mechanism(e) ==
